@@ -514,6 +514,10 @@ pub fn cmd_merge(r: &mut Runner, t: &[&str]) -> String {
     let trace_path = format!("{}/trace-{}.txt", dir, tag);
     let _ = std::fs::remove_file(&trace_path);
     cmd.env("FST_VERIF_TRACE", &trace_path);
+    if r.cli_hangs >= 2 {
+        // the tool has hung twice already in this run: it is reported; do not wait for it a thousand times
+        return "merge skipped-after-hangs".into();
+    }
     // with a deadline: a deadlock of the worker protocol must not hang the check
     cmd.stdout(std::process::Stdio::null()).stderr(std::process::Stdio::piped());
     let mut child = cmd.spawn().unwrap();
@@ -522,7 +526,7 @@ pub fn cmd_merge(r: &mut Runner, t: &[&str]) -> String {
         match child.try_wait().unwrap() {
             Some(st) => break Some(st),
             None => {
-                if t0.elapsed().as_secs() > 120 {
+                if t0.elapsed().as_secs() > 60 {
                     let _ = child.kill();
                     let _ = child.wait();
                     break None;
@@ -549,7 +553,8 @@ pub fn cmd_merge(r: &mut Runner, t: &[&str]) -> String {
     let nrows_traced = rows.len();
     let st = match out.status {
         None => {
-            r.check(false, || format!("C19 fst did not terminate within 120 s (deadlock?) :: {}", line));
+            r.cli_hangs += 1;
+            r.check(false, || format!("C19 fst did not terminate within 60 s (deadlock / endless loop?) :: {}", line));
             return "merge hung".into();
         }
         Some(st) => st,
